@@ -17,7 +17,7 @@ def run(report, tier):
     L = larkcap.capture_dec()
     decsweep.b1(report, L, which=("vacuity", "equiv", "closure"),
                 prop_note=" (commas and line ends inside a parameter list, repeated semicolons, a final End line carry no tree content)")
-    decsweep.lemmas(report, kinds=("newline", "comment", "blank", "keyword"))
+    decsweep.lemmas(report, kinds=("newline", "comment", "blank", "keyword", "model", "word", "number"))   # every token class may be followed by CR, a comment or a blank
     decsweep.validate_translator(report, L)
     t = 1200 if thorough else 600
     hs = [
